@@ -109,6 +109,23 @@ Theorem C34_same_root_twins_fail_before_any_op : forall tree before root after n
 Proof. exact same_root_twins_fail. Qed.
 Print Assumptions C34_same_root_twins_fail_before_any_op.
 
+(** No discovered repository has the empty name (since the repair `fix: zoekt-local-sync: discovery rejects a
+    repository whose name would be empty`, /repo 9bcd963: a root directory called ".git" that is a bare repository —
+    "<checkout>/.git" given as a root — used to be discovered as "", which index.NewBuilder rejects, but only with -f and
+    only after the checkout's shard had been pruned as "now named \"\""); such a root now makes discovery fail like any
+    other bad root: E_ROOT, no shard operation ([C34_duplicate_fails_before_any_op]). *)
+Theorem C34_discovered_names_nonempty : forall tree roots specs,
+  discover tree roots = Ok specs -> forall s, In s specs -> sp_name s <> [].
+Proof. exact discover_ok_named. Qed.
+Print Assumptions C34_discovered_names_nonempty.
+
+Example C34_nonvacuous_nameless_root :
+  let tree := NDir [ ([114;49]%N, NDir [ ([97]%N, NDir [ (dot_git, NDir [ (objects_s, NDir []) ]) ]) ]) ] in
+  discover tree [ [[114;49]%N] ] = Ok [ mkSpec [97]%N [47;114;49;47;97]%N ] /\
+  discover tree [ [[114;49]%N]; [[114;49]%N; [97]%N; dot_git] ] = Err E_ROOT /\
+  r_ops (run_sync Force tree ex_world [ [[114;49]%N; [97]%N; dot_git] ] ex_inv) = [OpMkdirAll; OpLockFile].
+Proof. vm_compute. repeat split; reflexivity. Qed.
+
 (** Convergence: if sync -f succeeds on a well-formed index, then afterwards (a) every discovered repository
     has its first shard, (b) EVERY shard in the index belongs to a discovered repository: it carries that
     repository's name (= its path relative to its root, see [spec_of]), sits in that name's file, points at its
